@@ -4,4 +4,5 @@ pub mod engines;
 pub mod prng;
 pub mod refmodel;
 pub mod sched;
+pub mod shardmodel;
 pub mod simstore;
